@@ -68,7 +68,11 @@ func CoerceArgumentValues(node ast.Node, argumentDefinitions map[string]*schema.
 				coercedValues = map[string]interface{}{}
 			}
 			if argVariable, ok := argumentValue.(*ast.Variable); ok {
-				coercedValues[argumentName] = variableValues[argVariable.Name.Name]
+				value := variableValues[argVariable.Name.Name]
+				if value == nil && schema.IsNonNullType(argumentType) {
+					return nil, newError(argumentValue, "The %v argument cannot be null.", argumentName)
+				}
+				coercedValues[argumentName] = value
 			} else if coerced, err := schema.CoerceLiteral(argumentValue, argumentType, variableValues); err != nil {
 				return nil, newError(argumentValue, "Invalid argument value: %v", err.Error())
 			} else {
